@@ -120,6 +120,7 @@ impl<T: MomTropFloat> SquareMatrix<T> {
     /// Performs operations on a matrix for tropical sampling
     /// # Errors
     /// Returns an error if the matrix is not invertible
+    #[allow(clippy::neg_cmp_op_on_partial_ord)]
     pub fn decompose_for_tropical(
         &self,
         settings: &TropicalSamplingSettings,
@@ -239,7 +240,8 @@ impl<T: MomTropFloat> SquareMatrix<T> {
                 println!("error: {:?}", error);
             }
 
-            if error > error.from_f64(tolerance) {
+            // written as a negation so that a NaN error (NaN in the decomposition) fails the test
+            if !(error <= error.from_f64(tolerance)) {
                 if settings.print_debug_info {
                     println!("Inversion unstable");
                 }
